@@ -167,6 +167,7 @@ func c17One(x *ctx, c importCase) bool {
 	sort.Strings(wantTasks)
 	sort.Strings(wantPipes)
 	r := loadInProcess(dir, lc)
+	defer r.release()
 	x.res.Evaluations++
 	x.kinds[fmt.Sprintf("edges=%d broken=%v special=%s", len(c.Edges), c.Broken >= 0, c.Special)] = true
 	switch {
